@@ -38,7 +38,17 @@ def run(ctx):
             if fr:
                 races.append(sorted(set(fr[:2])))
     rows = vlib.read_ndjson(traces)
-    ntr = st["traces"]
+    # a session that did not finish within the 180 s watchdog (overloaded machine) says nothing about C17: leave it out
+    slow = [r for r in rows if r.get("timedout")]
+    if slow:
+        if len(slow) * 4 > len(rows):
+            raise vlib.Undecided("%d of %d paced sessions did not finish within the watchdog: machine too loaded" % (len(slow), len(rows)))
+        ctx.notes.append("%d of %d sessions hit the 180 s watchdog and were left out" % (len(slow), len(rows)))
+        rows = [r for r in rows if not r.get("timedout")]
+        for i, r in enumerate(rows):
+            r["t"] = i + 1
+        vlib.write_ndjson(traces, rows)
+    ntr = len(rows)
     if races:
         # a race is not a behaviour of the specification: it becomes a Race event of an extra trace
         uniq = sorted(set(tuple(r) for r in races))
